@@ -57,6 +57,7 @@ def _probe_status(gen: int, marker: int) -> bytes:
 def generate(rng, index: int, tier: str) -> dict:
     gen = rng.choice([4, 5])
     api = rng.random() < 0.3
+    slow_conn_sub = False
     depth = rng.randint(1, 4 if tier == "quick" else 8)
     lat = rng.choice([0.0, G.TICK, 2.0**-7, 2.0**-5])
     knobs = {"latency": lat, "first_packet_id": rng.choice([0, 254]), "seg": rng.choice([{"mode": "whole"}, {"mode": "random", "seed": rng.getrandbits(16), "max": 3}])}
@@ -73,6 +74,11 @@ def generate(rng, index: int, tier: str) -> dict:
             tl.append({"at": 0.0, "op": "user.sock_subscribe", "name": "bad", "raises": True, "sub_yields": rng.choice([0, 1])})
         # a message subscriber that answers what it receives with a request of its own, from inside the callback (what the API
         # classes do for their handshake chain and for error descriptions)
+        if rng.random() < 0.25:
+            # a connection subscriber that takes its time over "connected" (and may fail at the end): the post-connect phase
+            # of every connection then lasts that long
+            tl.append({"at": 0.0, "op": "user.sock_conn_subscribe", "work": rng.choice([0.125, 0.5, 0.5, 2.5]), "raises": rng.random() < 0.4})
+            slow_conn_sub = True
         if rng.random() < 0.5:
             tl.append({"at": 0.0, "op": "user.sock_subscribe", "name": "replier", "sub_yields": rng.choice([0, 0, 1]),
                        "after_yields": rng.choice([0, 0, 3, 12, 40]), "after_sleep": rng.choice([0.0, 0.0, 2.0**-6, 0.25, 1.5]),
@@ -108,7 +114,7 @@ def generate(rng, index: int, tier: str) -> dict:
             tl.append({"at": t, "op": "net.fates", "fates": recon})
             tl.append({"at": t, "op": "net.rst"})
         elif kind == "slow_accept":
-            tl.append({"at": t, "op": "net.fates", "fates": [{"kind": "accept", "latency": rng.choice([1.0, 2.0, 2.0 - G.EPS, 4.0])}]})
+            tl.append({"at": t, "op": "net.fates", "fates": [{"kind": "accept", "latency": rng.choice([1.0, 2.0, 2.0 - G.EPS, 4.0, 4.75, 4.9375, 5.0 - G.EPS, 5.5, 9.75])}]})
             tl.append({"at": t, "op": rng.choice(["net.fin", "net.rst"])})
         elif kind in ("fin", "rst"):
             tl.append({"at": t, "op": "net.fates", "fates": recon})
